@@ -217,6 +217,26 @@ class Combined:
     def sym_eq(self, ex, other):
         return Combined.eq(self, other)
 
+    def concrete_bytes(self):
+        """The byte string, when occupancy, chunk lengths and the cut are all concrete; else None."""
+        items = []
+        snap = self.snapshot if self.order == 'asc' else list(reversed(self.snapshot))
+        for _, v in snap:
+            if isinstance(v, GV):
+                return None
+            if v is ABSENT:
+                continue
+            if not isinstance(v, (SBytes, bytes, bytearray)):
+                return None
+            its = list(SBytes.of(v).items)
+            items.extend(its[::-1] if self.each_rev else its)
+        st = self.start
+        if st is None:
+            st = 0
+        if isinstance(st, Sym):
+            return None
+        return SBytes(items[st:])
+
     @staticmethod
     def eq(a, b):
         if not isinstance(a, Combined) or not isinstance(b, Combined):
